@@ -170,7 +170,7 @@ impl Property for C02 {
     const ID: &'static str = "C02";
 
     fn rule() -> String {
-        "proptest-generated directory specs: 0..6 common properties, 0..4 variants x 0..4 properties (unequal sizes, empty variants, constant columns anywhere), kinds uint/sint/array(prefix 0..31, plain or indexed store, shared stores)/content address, integers at every byte-width boundary with both signs, arrays at length-width boundaries (0, 255/256, 65535/65536), 0..600 entries (thousands in the thorough tier), 1-2 entry stores, 1-4 index windows each; driver bare DirectoryPackCreator (90%) or BasicCreator (10%). Oracle: model of the written values vs. real reader (typed, per window, nothing beyond the window, foreign-variant properties answer None) and vs. the independent decoder. Non-trivial = >=2 entries and (variants, or a constant column, or a shared store, or a negative signed value, or a sub-range window); distinct by (shape classes, schema, entry count). The variant of every entry is also read through the typed path (Layout::variant_id_builder with reader types knowing only {A,C}, {B,D,E}, {E}: an unknown variant must read as None, a known one as itself); Index::is_empty agrees with the declared count; half of the directories give every index non-default free data and key, which the independent decoder must find at their documented bytes.".into()
+        "proptest-generated directory specs: 0..6 common properties, 0..4 variants x 0..4 properties (unequal sizes, empty variants, constant columns anywhere), kinds uint/sint/array(prefix 0..31, plain or indexed store, shared stores)/content address, integers at every byte-width boundary with both signs, arrays at length-width boundaries (0, 255/256, 65535/65536), 0..600 entries (thousands in the thorough tier), 1-2 entry stores, 1-4 index windows each; driver bare DirectoryPackCreator (90%) or BasicCreator (10%). Oracle: model of the written values vs. real reader (typed, per window, nothing beyond the window, foreign-variant properties answer None) and vs. the independent decoder. Non-trivial = >=2 entries and (variants, or a constant column, or a shared store, or a negative signed value, or a sub-range window); distinct by (shape classes, schema, entry count). The variant of every entry is also read through the typed path (Layout::variant_id_builder with reader types knowing only {A,C}, {B,D,E}, {E}: an unknown variant must read as None, a known one as itself); Index::is_empty agrees with the declared count; half of the directories give every index non-default free data and key, which the independent decoder must find at their documented bytes. Every property of (a spread of) the entries is read a second time through its specialised builder (IntProperty, SignedProperty, ArrayProperty, ContentProperty on EntryStore::get_entry_reader), the three other builder kinds having to refuse the column; every second index window is created with a lazy offset (the handle of the entry the model places first in it).".into()
     }
 
     fn assumptions() -> Vec<String> {
